@@ -33,6 +33,10 @@ import (
 type importer struct {
 	ns      Namespace
 	imports map[string]*ast.ImportSpec
+
+	// Names of local variables of the generated code. A package imported
+	// under one of these names would be shadowed by the variable.
+	locals map[string]struct{}
 }
 
 // newImporter builds a new importer.
@@ -40,6 +44,26 @@ func newImporter(ns Namespace) importer {
 	return importer{
 		ns:      ns,
 		imports: make(map[string]*ast.ImportSpec),
+	}
+}
+
+// avoiding returns the importer with the given names of local variables of
+// the generated code, none of which it gives to an import.
+func (i importer) avoiding(locals map[string]struct{}) importer {
+	i.locals = locals
+	return i
+}
+
+// newLocals builds the set of names of local variables of the generated
+// code: those the templates spell out. Names handed out by newVar are added
+// as they are given.
+func newLocals() map[string]struct{} {
+	return map[string]struct{}{
+		"e":       {},
+		"err":     {},
+		"request": {},
+		"result":  {},
+		"success": {},
 	}
 }
 
@@ -72,7 +96,11 @@ func (i importer) Import(path string) string {
 		return filepath.Base(path)
 	}
 
-	name := i.ns.NewName(goast.DeterminePackageName(path))
+	pkgName := goast.DeterminePackageName(path)
+	name := i.ns.NewName(pkgName)
+	for i.isLocal(name) {
+		name = i.ns.NewName(pkgName)
+	}
 	astImport := &ast.ImportSpec{
 		Name: ast.NewIdent(name),
 		Path: stringLiteral(path),
@@ -80,6 +108,11 @@ func (i importer) Import(path string) string {
 
 	i.imports[path] = astImport
 	return name
+}
+
+func (i importer) isLocal(name string) bool {
+	_, ok := i.locals[name]
+	return ok
 }
 
 // importDecl builds an import declation from the given list of imports.
